@@ -98,7 +98,7 @@ def reduce_amount(vertices, edges, cells):
                             toRemove = e
                     # edges[toRemove].v1.ownEdges.remove(toRemove)
                     # edges[toRemove].v2.ownEdges.remove(toRemove)
-                    del edges[toRemove]
+                    edges.pop(toRemove).unregister()
                     edges[toReplace].replace_vertex(j, k)
                     for c in j.ownCells:
                         cells[c].vertices.remove(j)
